@@ -51,6 +51,7 @@ pub fn profile() -> Profile {
     p.overrides = 3;
     p.ov_sized_array = 5;
     p.struct_helpers = 2;
+    p.ty.len_edges = 2;
     p
 }
 
